@@ -11,6 +11,9 @@ from ..core import same, HarnessError
 ID = 'C07'
 TITLE = 'cmp total preorder; sort / dictable.sort follow it stably'
 LEVEL = 'exploration'
+TECHNIQUE = 'runtime monitoring: law monitors on the real cmp over a mixed-type universe (full matrix, all triples by boolean matrix product), post-conditions on sort, stable-sort model for dictable.sort'
+LEVEL_TEXT = 'All ordered pairs and all triples of a ~190 value universe plus random universes; sort/dictable.sort on random inputs. A check says held on K observed executions, never verified.'
+LEVEL_NOTE = 'Trusted: numpy matrix product for the triple check; the dictable.sort model uses the real cmp (whose laws are monitored here).'
 RULE = ('cmp laws: full pair matrix + all triples over a fixed universe (~190 scalars/numpy scalars/dates/containers/nestings) and over random '
         'universes of 40 generated nested values; sort: random lists of scalars / equal-length tuples; dictable.sort: random tables x key '
         'columns / key function / explicit value orders.  non-trivial = a universe (counted once per distinct universe), a list containing a NaN '
